@@ -58,6 +58,17 @@ def first_coefficient_twin(raw):
     return out, c
 
 
+def permuted_twin(raw):
+    """the same variables, the same bound, the same coefficients handed to OTHER variables: 2o + 3i <= 6 and 3o + 2i <= 6"""
+    co, c = raw
+    ks = list(co)
+    if len(ks) < 2 or co[ks[0]] == co[ks[1]]:
+        return None
+    out = dict(co)
+    out[ks[0]], out[ks[1]] = co[ks[1]], co[ks[0]]
+    return out, c
+
+
 def weakened(raw, d):
     co, c = raw
     return (dict(co), c + d)
@@ -88,8 +99,11 @@ def viewpoint_pair(rng, shape, dyadic=0.0):
                 r = rng.choice(cands)
                 how = rng.random()
                 tw = first_coefficient_twin(r)
+                pw = permuted_twin(r)
                 if tw and how < 0.15:
                     dst[part].append(tw)
+                elif pw and how < 0.3:
+                    dst[part].append(pw)
                 elif how >= 0.8:
                     base, twin = near_twin(rng, r)
                     src[part][src[part].index(r)] = base
